@@ -61,7 +61,10 @@ def drive(sc):
     cfg = {"variables": {"initial_values": [0.0] * V},
            # (a configured weight of exactly zero in every second ensemble: samples are drawn for every realization all the same)
            "realizations": {"weights": [0.0 if (r == 1 and (P + V + int(sc["shared"])) % 2 == 0) else 1.0 for r in range(R)]},
-           "gradient": {"number_of_perturbations": P, "seed": seed},
+           # (options of the gradient section that are none of a sampler's business: merged realizations in every second
+           #  scenario, a success threshold below the number of perturbations in every third)
+           "gradient": {"number_of_perturbations": P, "seed": seed, "merge_realizations": bool((R + V) % 2),
+                        **({"perturbation_min_success": 1} if P >= 2 and (P + R + V) % 3 == 0 else {})},
            "samplers": [{"method": method, "shared": bool(sc["shared"])}]}
     if sc["two"]:
         cfg["samplers"] = cfg["samplers"] * 2
